@@ -162,6 +162,15 @@ func (c09) RunCase(c *core.Ctx) {
 	if c.Case%5 == 4 && !c09Flat(c) {
 		return
 	}
+	if c.Case%25 == 3 {
+		// "identical on every run": the same call again, after the caller edited the result of the first one
+		name, problem := dDefaultsIndependent(c.R)
+		c.Eval(2)
+		if problem != "" {
+			c.Violation("result-depends-on-order|the-same-call-again", map[string]any{"schema": name, "observed": problem})
+			return
+		}
+	}
 	o := gen.DefaultOpts()
 	o.MaxFields = 5
 	o.CatchPct = 35
